@@ -24,6 +24,7 @@ clause "every scheduled time in [t_start, t_end] is served exactly once, in orde
 t_start when t_start is scheduled" against the schedule's defining set for fixed-list, geometric and logarithmic
 schedules."""
 import copy
+import math
 import json
 
 from harness.common import ctrl
@@ -532,7 +533,10 @@ def adaptive_leg(ctx):
         report(ctx, "exact-stepper", case, ctrl.monitor_exact(case, real))
         # every stepper call returns its target or overshoots it by less than dt_min (theorem adaptiveStepper_lands)
         for c in log["calls"]:
-            if not (c["ret"] == c["target"] or c["target"] < c["ret"] < c["target"] + log["dt_min"] * (1 + 1e-6)):
+            # (the theorem is about exact arithmetic; the float sum t + dt_step carries up to an ulp of t, which at
+            #  t = 12 is 2e-15 - far more than a relative allowance on dt_min = 1e-10)
+            if not (c["ret"] == c["target"]
+                    or c["target"] < c["ret"] < c["target"] + log["dt_min"] + 4 * math.ulp(abs(c["ret"]))):
                 report(ctx, "exact-stepper", case, [("adaptive stepper returns its target (or overshoots by < dt_min)",
                                                      c["ret"], c["target"])])
                 break
